@@ -177,6 +177,13 @@ type run struct {
 	stop     chan struct{}
 	stopOnce sync.Once
 	wg       sync.WaitGroup
+
+	// hot upgrade: the survivor (see survivor) outlives the other clients
+	stop2     chan struct{}
+	stop2Once sync.Once
+	wg2       sync.WaitGroup
+	survOK    int32 // answered survivor requests
+	survDead  int32 // the survivor's connection failed (recorded as a result)
 }
 
 type probe struct {
@@ -201,6 +208,7 @@ func (r *run) stopped() bool {
 	}
 }
 func (r *run) stopAll()            { r.stopOnce.Do(func() { close(r.stop) }) }
+func (r *run) haltSurvivor()       { r.stop2Once.Do(func() { close(r.stop2) }); r.wg2.Wait() }
 func (r *run) record(x *result)    { r.mu.Lock(); r.results = append(r.results, x); r.mu.Unlock() }
 func (r *run) recordProbe(p probe) { r.mu.Lock(); r.probes = append(r.probes, p); r.mu.Unlock() }
 
@@ -349,6 +357,55 @@ func (r *run) client(id int) {
 			case <-r.stop:
 			case <-time.After(time.Duration(think) * time.Millisecond):
 			}
+		}
+	}
+}
+
+// survivor (hot upgrade only): one bolt client on ONE connection opened before the signal, used at a slow, steady
+// pace through the whole switch and beyond the exit of the old process: "no request on a handed-over connection fails
+// because of the switch" also covers what the old process does to that connection when it finally leaves. The
+// connection is never re-dialled: its first failure is recorded and ends the client.
+func (r *run) survivor() {
+	defer r.wg2.Done()
+	const id = 10
+	halted := func() bool {
+		select {
+		case <-r.stop2:
+			return true
+		default:
+			return false
+		}
+	}
+	var conn xconn
+	for conn == nil && !halted() && !r.isSignalled() {
+		c, err := r.dial("bolt")
+		if err != nil {
+			time.Sleep(5 * time.Millisecond)
+			continue
+		}
+		conn = c
+	}
+	if conn == nil {
+		atomic.StoreInt32(&r.survDead, 1)
+		return
+	}
+	defer conn.close()
+	rnd := xs((r.cs.Seed ^ 0x5bd1e9955bd1e995) | 1)
+	for seq := 0; !halted(); seq++ {
+		p := newPlan(fmt.Sprintf("k%d-surv-%d", r.no, seq), 1+rnd.n(300), 1+rnd.n(300), 0)
+		r.ups["bolt"].add(p)
+		res := &result{Client: id, Seq: seq, Proto: "bolt", Token: p.Token, KeepAlive: true, NewConn: seq == 0, Survivor: true, StartMs: r.ms(), ReqSize: p.ReqSize, RespSize: p.RespSize, plan: p}
+		conn.do(p, nil, res)
+		res.EndMs = r.ms()
+		r.record(res)
+		if !res.ok() {
+			atomic.StoreInt32(&r.survDead, 1)
+			return
+		}
+		atomic.AddInt32(&r.survOK, 1)
+		select {
+		case <-r.stop2:
+		case <-time.After(120 * time.Millisecond):
 		}
 	}
 }
@@ -614,14 +671,16 @@ type outcome struct {
 	UpstreamBad []string  `json:"upstream_bad,omitempty"`
 	Dir         string    `json:"dir"`
 	StopConnMs  int64     `json:"stop_connection_seen_ms,omitempty"`
-	PhaseMissed bool      `json:"phase_missed,omitempty"`
-	probes      []probe
+	// hot upgrade: requests answered on the survivor's (handed-over) connection after the old process had exited
+	SurvivorAfterExit int  `json:"survivor_requests_after_old_exit,omitempty"`
+	PhaseMissed       bool `json:"phase_missed,omitempty"`
+	probes            []probe
 }
 
 var caseNo int64
 
 func execute(cs Case) (o *outcome, r *run, infra string) {
-	r = &run{cs: cs, no: atomic.AddInt64(&caseNo, 1), fired: make(chan struct{}), stop: make(chan struct{}), pieceGap: 2 * time.Millisecond}
+	r = &run{cs: cs, no: atomic.AddInt64(&caseNo, 1), fired: make(chan struct{}), stop: make(chan struct{}), stop2: make(chan struct{}), pieceGap: 2 * time.Millisecond}
 	r.sig = syscall.SIGTERM
 	if cs.Signal == "SIGHUP" {
 		r.sig = syscall.SIGHUP
@@ -677,7 +736,7 @@ func execute(cs Case) (o *outcome, r *run, infra string) {
 		}
 	}
 	defer release()
-	defer func() { r.stopAll(); r.wg.Wait() }()
+	defer func() { r.stopAll(); r.wg.Wait(); r.haltSurvivor() }()
 
 	r.wg.Add(nClients + 1)
 	for i := 0; i < nClients; i++ {
@@ -691,6 +750,8 @@ func execute(cs Case) (o *outcome, r *run, infra string) {
 	if cs.Signal == "SIGHUP" {
 		r.wg.Add(1)
 		go r.client(nClients)
+		r.wg2.Add(1)
+		go r.survivor()
 	}
 
 	// upstream-side phases: the coordinator fires when the upstream reports the phase
@@ -787,6 +848,16 @@ func execute(cs Case) (o *outcome, r *run, infra string) {
 		if len(o.NewPids) == 0 {
 			o.NewPids = r.p.Others()
 		}
+		// the survivor goes on for a few more requests after the old process is gone
+		if ex, _, _ := r.p.Exited(); ex {
+			at := atomic.LoadInt32(&r.survOK)
+			end := time.Now().Add(5 * time.Second)
+			for time.Now().Before(end) && atomic.LoadInt32(&r.survDead) == 0 && atomic.LoadInt32(&r.survOK) < at+3 {
+				time.Sleep(20 * time.Millisecond)
+			}
+			o.SurvivorAfterExit = int(atomic.LoadInt32(&r.survOK) - at)
+		}
+		r.haltSurvivor()
 	}
 	ex, code, at := r.p.Exited()
 	o.Exited, o.ExitCode = ex, code
